@@ -513,6 +513,10 @@ def contract_call(ex, c, fi, recv, pos, kw, st, fr):
     ns.loc = saved_loc
     if ex.feasible(ns):
         outs.append((res, ns))
+    if not outs:
+        # neither the normal nor an exceptional outcome of the callee's contract is possible here: the
+        # contract (or what is assumed with it) is contradictory -- never silently drop the path
+        raise Unsupported(f'contract of {c.qual} admits no outcome at a call site in {fr.fi.qualname} (inconsistent contract?)')
     return outs
 
 
